@@ -196,7 +196,8 @@ pub fn run(o: &Opts) -> Report {
             let direct = matches!(*name, "set_creation_time" | "set_modification_time" | "set_access_time");
             if out == "panic" {
                 rep.fail(Fail { oracle: "prop".into(), signature: format!("embedded:{}:panic", name), what: format!("{}({:?}) panicked", name, p), script: vec![], impl_out: out.clone(), model_out: String::new() });
-            } else if toks[0] != "err" && !(name == &"create_dir_all" && p.is_empty()) {
+            } else if toks[0] != "err" && !(name == &"create_dir_all" && emb.join(p).map(|q| q.is_root()).unwrap_or(false)) {
+                // (create_dir_all of the ROOT — also spelled "x/.." — answers Ok in the path layer without reaching the backend)
                 rep.fail(Fail { oracle: "prop".into(), signature: format!("embedded:{}:accepted", name), what: format!("{}({:?}) was not refused: {}", name, p, out), script: vec![], impl_out: out.clone(), model_out: String::new() });
             } else if direct && toks.get(1) != Some(&"notSupported") {
                 rep.fail(Fail { oracle: "prop".into(), signature: format!("embedded:{}:wrong-class", name), what: format!("{}({:?}) refused with {} instead of not-supported", name, p, out), script: vec![], impl_out: out.clone(), model_out: String::new() });
